@@ -110,7 +110,7 @@ def check_order(ctx, fn, merged_call):
         aligned = _presorted(fn, mstmt)
         if isinstance(r, ast.Subscript) and isinstance(r.slice, ast.Call) and A.last_attr(r.slice) == "argsort":
             key_arr = r.slice.args[0] if r.slice.args and (A.call_name(r.slice) or "").startswith("np.") else (r.slice.func.value if isinstance(r.slice.func, ast.Attribute) else None)
-            if key_arr is not None and (canon(key_arr) == canon(t_at_merge) or canon(key_arr) in (canon(parse("all_data._t_bmjd")),)):
+            if key_arr is not None and (canon(key_arr) == canon(t_at_merge)):
                 aligned = True
         what = "passed to %s with the merged data" % A.call_name(A.parent(n)) if isinstance(A.parent(n), ast.Call) else "returned next to the merged data"
         if aligned:
